@@ -263,3 +263,47 @@ impl Dictionary {
         Ok(self)
     }
 }
+
+#[cfg(vibrato_verif)]
+impl Dictionary {
+    /// Verification hook: `ConnectorCost::cost(right_id, left_id)` of the stored connector.
+    pub fn verif_conn_cost(&self, right_id: u16, left_id: u16) -> i32 {
+        use crate::dictionary::connector::ConnectorCost;
+        match self.connector() {
+            ConnectorWrapper::Matrix(c) => c.cost(right_id, left_id),
+            ConnectorWrapper::Raw(c) => c.cost(right_id, left_id),
+            ConnectorWrapper::Dual(c) => c.cost(right_id, left_id),
+        }
+    }
+
+    /// Verification hook: `(num_right, num_left)` of the stored connector.
+    pub fn verif_conn_dims(&self) -> (usize, usize) {
+        (self.connector().num_right(), self.connector().num_left())
+    }
+
+    /// Verification hook: `(cate_idset, base_id, invoke, group, length)` of a character.
+    pub fn verif_char_info(&self, c: char) -> (u32, u32, bool, bool, u16) {
+        let i = self.char_prop().char_info(c);
+        (i.cate_idset(), i.base_id(), i.invoke(), i.group(), i.length())
+    }
+
+    /// Verification hook: id of a category name.
+    pub fn verif_cate_id(&self, name: &str) -> Option<u32> {
+        self.char_prop().cate_id(name)
+    }
+
+    /// Verification hook: number of categories.
+    pub fn verif_num_categories(&self) -> usize {
+        self.char_prop().num_categories()
+    }
+
+    /// Verification hook: stored unknown-word entries `(cate_id, left_id, right_id, cost, feature)`.
+    pub fn verif_unk_entries(&self) -> Vec<(u16, u16, u16, i16, String)> {
+        self.unk_handler().verif_entries()
+    }
+
+    /// Verification hook: stored left and right tables of the connection-id mapper.
+    pub fn verif_mapper(&self) -> Option<(Vec<u16>, Vec<u16>)> {
+        self.mapper().map(|m| m.verif_tables())
+    }
+}
